@@ -45,7 +45,7 @@ Definition added (old new : sig) : list brk :=
                       | _ => [] end) new.
 Definition fdiff (old new : sig) : list brk := olds new 0 old ++ added old new.
 
-(* ---- authority: CPython's binder for a call with n positional arguments and distinct keyword names K ---- *)
+(* ---- authority: CPython's binder for a call with n positional arguments and keyword names K ---- *)
 Definition pos_kind k := match k with PO | PK => true | _ => false end.
 Definition npos (s : sig) := List.length (filter (fun p => pos_kind (pkind p)) s).
 Definition mem n K := existsb (Nat.eqb n) K.
@@ -62,8 +62,11 @@ Definition param_ok (s : sig) (n : nat) (K : list nat) (q : param) : bool :=
   | PK => Nat.ltb (index_of (pname q) s) n || mem (pname q) K || negb (required q)
   | KO => mem (pname q) K || negb (required q)
   | _ => true end.
+(* a keyword name given twice (through dictionary unpacking) is rejected against every signature *)
+Fixpoint nodupb (K : list nat) : bool :=
+  match K with [] => true | k :: r => negb (mem k r) && nodupb r end.
 Definition binds (s : sig) (n : nat) (K : list nat) : bool :=
-  (Nat.leb n (npos s) || has_kind VP s) && forallb (kw_ok s n) K && forallb (param_ok s n K) s.
+  nodupb K && (Nat.leb n (npos s) || has_kind VP s) && forallb (kw_ok s n) K && forallb (param_ok s n K) s.
 
 (* ---- well-formed signatures (what `def` accepts) ---- *)
 Definition krank k := match k with PO=>0|PK=>1|VP=>2|KO=>3|VK=>4 end.
